@@ -117,6 +117,12 @@ def scenario_for(name):
                     elif call[0] == 'call':
                         await sc.call('x', 1, timeout=5)
                         st['results'].append(('call-ok',))
+                    elif call[0] == 'connect-again':
+                        try:
+                            await sc.connect('http://h')
+                            st['results'].append(('connect-again-ok',))
+                        except RuntimeError:
+                            st['results'].append(('connect-again-refused',))
                     elif call[0] == 'wait-final':
                         await gone.wait()
                         st['results'].append(('final-seen',))
